@@ -58,7 +58,7 @@ func (obj SingleFloat) Simplify() any {
 func (obj SingleFloat) Equal(other Object) (eq bool) {
 	switch to := other.(type) {
 	case Fixnum:
-		eq = obj == SingleFloat(to)
+		eq = to.equalFloat(float64(obj))
 	case Octet:
 		eq = obj == SingleFloat(to)
 	case SingleFloat:
